@@ -160,7 +160,7 @@ func checkBuild(c *mon.Case, b c16Build) {
 				fs.FailWriteStyle = k % 3 // (0, err), (len(p), err), a short write
 			}
 			// rotate the error kind: a plain error, and kinds a wrapper might take for success or end of input
-			fs.FailErr = []error{nil, &iofs.PathError{Op: "open", Path: "/blocks/x", Err: syscall.EEXIST}, io.ErrShortWrite, context.Canceled, iofs.ErrExist, store.ErrNotFound{}, &iofs.PathError{Op: "open", Path: "/blocks/x", Err: syscall.ENOENT}, io.EOF}[k%8]
+			fs.FailErr = []error{nil, &iofs.PathError{Op: "open", Path: "/blocks/x", Err: syscall.EEXIST}, io.ErrShortWrite, context.Canceled, iofs.ErrExist, store.ErrNotFound{}, &iofs.PathError{Op: "open", Path: "/blocks/x", Err: syscall.ENOENT}, io.EOF, tempErr{}, syscall.EAGAIN, os.ErrDeadlineExceeded}[k%11]
 			if len(b.ErrPaths) > 0 && k%2 == 1 {
 				// the failing store sits inside the tree that is being imported
 				fs.FailErr = &iofs.PathError{Op: []string{"open", "rename", "mkdir"}[k%3], Path: filepath.Join(b.ErrPaths[(k/2)%len(b.ErrPaths)], ".repo", "blocks", "AF", fmt.Sprintf("tmp-%d", k)), Err: []error{syscall.ENOENT, iofs.ErrNotExist}[(k/2)%2]}
